@@ -91,7 +91,8 @@ func c18App(sp c18Spec) *app.App {
 			a.Nodes["child"].TplLang[l] = "child/" + l + " {{.cg}}"
 		}
 		if sp.Trans&4 != 0 {
-			a.MenusLang[l] = map[string]string{"lbl": "label/" + l}
+			// lbl has a default text of its own; chg is shown as it is in the default language (no entry) but is translated
+			a.MenusLang[l] = map[string]string{"lbl": "label/" + l, "chg": "chg/" + l}
 		}
 	}
 	a.Menus["lbl"] = "label"
@@ -191,7 +192,7 @@ func c18Run(c *mc.Ctx) {
 	c.Note("history_depth", fmt.Sprint(depth))
 	c.Note("non_default_switch_answers_per_execution", fmt.Sprint(dev))
 	// the last two serve the application through the library's resource.DbResource over db/mem
-	backends := []lsOpts{{Mode: "long-lived"}, {Mode: "persisted", Backend: "mem"}, {Mode: "long-lived", DbRes: true}, {Mode: "long-lived", PoRes: true}, {Mode: "kept-state"}, {Mode: "long-lived", DbResFs: true}}
+	backends := []lsOpts{{Mode: "long-lived"}, {Mode: "persisted", Backend: "mem"}, {Mode: "long-lived", DbRes: true}, {Mode: "long-lived", PoRes: true}, {Mode: "kept-state"}, {Mode: "long-lived", DbResFs: true}, {Mode: "persisted", Backend: "mem", First: true}}
 	if c.Thorough() {
 		backends = append(backends, lsOpts{Mode: "persisted", Backend: "fs"}, lsOpts{Mode: "persisted", Backend: "mem", DbRes: true})
 	}
